@@ -352,7 +352,7 @@ def run_mid_case(st, case, judge):
 
 # ------------------------------------------------------------------ hash-chain parser (HC levels 3-9) model vs code
 CHAIN_LEVELS = [3, 4, 5, 6, 7, 8, 9, 9, 9, 0, -3, 10, 10, 11, 11, 12, 12, 12, 13, 100]     # 0 / negative = LZ4HC_CLEVEL_DEFAULT (9: pattern analysis on); > 12 = 12 (ultra)
-CHAIN_CORR = ("Model.HcChainApi (LZ4HC_compress_hashChain + LZ4HC_InsertAndGetWiderMatch + one-shot HC entry points at levels 3-9, "
+CHAIN_CORR = ("Model.HcChainApi + Model.HcOptApi (LZ4HC_compress_hashChain, LZ4HC_compress_optimal, LZ4HC_FindLongerMatch, LZ4HC_InsertAndGetWiderMatch + one-shot HC entry points at levels 3-12 mixed, "
               "LZ4_compress_HC_destSize) == the real functions over call histories on one LZ4_streamHC_t (return value, consumed, bytes, "
               "hashTable, chainTable, nextToUpdate, end index, dirty flag, favorDecSpeed after every call)")
 CHAIN_SEARCH_CORR = ("Model.HcChain.insertAndGetWiderMatch == LZ4HC_InsertAndGetWiderMatch called directly on a context with an external "
